@@ -33,7 +33,7 @@ ERRNOS = {
     "fchown": [EPERM],
     "flistxattr": [EIO],
     "fgetxattr": [EIO],
-    "fsetxattr": [ENOSPC],
+    "fsetxattr": [ENOSPC, EOPNOTSUPP],
 }
 # failures the statement explicitly tolerates (warnings only)
 TOLERATED = {"flistxattr", "fgetxattr", "fsetxattr", "fchown", "close"}
